@@ -466,6 +466,18 @@ def k1(ck: Check, fm: FuncModel) -> None:
                 elif not (isinstance(ot[0], ast.Subscript) and isinstance(ot[0].value, ast.Name) and ot[0].value.id in cand_vars):
                     probs.append(f"returned state `{text(ot[0])}` is not an element of a candidate list (e.g. a retained "
                                  f"set is a description of a network modification, not a state that covers attractors)")
+                else:
+                    # one element stands for the whole list only if it is the whole list
+                    L_ = f"len({ot[0].value.id})"
+                    pc = fm.pc(rn, numeric={L_})
+                    try:
+                        one = L_ in {x for a_ in logic.atoms(pc) if a_[0] != "b" for x in a_[1:]} and logic.implies(pc, logic.Eq(L_, "1"))
+                    except logic.TooBig:
+                        one = False
+                    if not one:
+                        probs.append(f"`{text(ot[0])}` alone is returned although `{ot[0].value.id}` may hold several candidates (path "
+                                     f"condition {logic.show(pc)[:120]}): a node without known successors covers every attractor below "
+                                     f"it, and all candidates but one are dropped")
             else:
                 probs.append(f"returned state `{text(e)}` has unknown origin / coordinates")
         elif isinstance(v, ast.Name) and v.id in cand_vars:
@@ -482,6 +494,16 @@ def k1(ck: Check, fm: FuncModel) -> None:
         else:
             probs.append(f"return value `{text(v)[:60]}` of unknown shape")
         ck.ob("K1", fm, n, not probs, "; ".join(probs) if probs else "returned list has candidate provenance and full coordinates")
+    # candidates leave the list only through the eliminations that prove something about them (simulation into a child
+    # space, pint reachability): a filter of any other kind drops attractors
+    for n in own_walk(f.node):
+        if isinstance(n, ast.Assign) and isinstance(n.targets[0], ast.Name) and n.targets[0].id in cand_vars \
+                and isinstance(n.value, (ast.ListComp, ast.GeneratorExp)) and any(g_.ifs for g_ in n.value.generators) \
+                and isinstance(n.value.generators[0].iter, ast.Name) and n.value.generators[0].iter.id in cand_vars:
+            ck.ob("K1", fm, n, False,
+                  f"candidates are removed by the filter `{text(n.value.generators[0].ifs[0])[:70]}`: a candidate may only be discarded "
+                  f"by an elimination that shows its state is not in an attractor of this node (simulation, reachability); "
+                  f"every attractor whose only candidate is filtered out is lost", key=f"filter on {n.targets[0].id}")
     # placeholders
     for cv in cand_vars:
         for d in fm.cfg.nodes:
@@ -653,6 +675,24 @@ def k3(ck: Check, fm: FuncModel) -> None:
                   key="simulation avoid set")
 
 
+def _alternatives(fm: FuncModel, e: ast.expr, at, depth: int = 0) -> list[ast.expr]:
+    """The expressions a value can come from: both arms of a conditional expression, every plain definition of a local."""
+    if depth > 4:
+        return [e]
+    if isinstance(e, ast.IfExp):
+        return _alternatives(fm, e.body, at, depth + 1) + _alternatives(fm, e.orelse, at, depth + 1)
+    if isinstance(e, ast.Name):
+        defs = fm.cfg.reaching_defs(e.id, at)
+        out = []
+        for d in defs:
+            a = d.ast
+            if not (d.kind == "stmt" and isinstance(a, ast.Assign) and len(a.targets) == 1 and isinstance(a.targets[0], ast.Name)):
+                return [e]
+            out += _alternatives(fm, a.value, d, depth + 1)
+        return out or [e]
+    return [e]
+
+
 def _reduced_motifs(fm: FuncModel, name: str, at, sd_p: str, node_p: str) -> bool:
     """All definitions/extensions of the list are reduced motifs of this node's edges (or intersections reduced to
     the node's free variables)."""
@@ -669,10 +709,12 @@ def _reduced_motifs(fm: FuncModel, name: str, at, sd_p: str, node_p: str) -> boo
             if not (is_true(red) and text(c.args[0]) == node_p):
                 return False
             it = val.generators[0].iter
-            sd = fm.single_def(it.id, d) if isinstance(it, ast.Name) else None
-            src = sd[1] if sd else it
-            if not (isinstance(src, ast.Call) and callee_name(src) == "node_successors" and text(src.args[0]) == node_p):
-                return False
+            for src in _alternatives(fm, it, d):
+                # the successors of the node, or nothing (`... if expanded else []`)
+                if is_empty_list(src):
+                    continue
+                if not (isinstance(src, ast.Call) and callee_name(src) == "node_successors" and text(src.args[0]) == node_p):
+                    return False
             if val.generators[0].ifs:
                 return False
             continue
@@ -950,6 +992,27 @@ def k7(ck: Check) -> None:
                             a_ = call_arg(x, i, p_)
                             if isinstance(a_, ast.Name) and a_.id in nfvs_names.get(m.f.key, set()):
                                 nfvs_names.setdefault(tgt, set()).add(p_)
+    # the candidate search of a node is always given a retained set; leaving it out (or `{}`) means "retain nothing",
+    # which is right only when the NFVS is empty
+    cm = next((m for m in models if m.f.name == "compute_attractor_candidates"), None)
+    if cm is not None:
+        nf = _nfvs_var(cm)
+        for x in own_walk(cm.f.node):
+            if isinstance(x, ast.Call) and callee_name(x) in ("compute_fixed_point_reduced_STG", "compute_fixed_point_reduced_STG_async"):
+                a_ = call_arg(x, 1, "retained_set")
+                empty = a_ is None or is_none(a_) or (isinstance(a_, ast.Dict) and not a_.keys)
+                if not empty:
+                    continue
+                n_ += 1
+                pc = cm.pc(cm.cfgn(x), numeric={f"len({nf})"} if nf else None)
+                try:
+                    ok = nf is not None and logic.implies(pc, logic.Not(logic.Lt("0", f"len({nf})")))
+                except logic.TooBig:
+                    ok = False
+                ck.ob("K7", cm, cm.f.stmt_of(x), ok, "no retained set where the NFVS is empty" if ok else
+                      f"candidates are enumerated without a retained set although the NFVS may be non-empty (path condition "
+                      f"{logic.show(pc)[:100]}): the fixed points of the unmodified network are only the fixed-point attractors, every "
+                      f"complex attractor is left without a candidate", key="candidate search without retained set")
     for fm in models:
         f = fm.f
         for lp in own_walk(f.node):
